@@ -34,8 +34,9 @@ std::string gen_case(const char *kind, uint64_t seed, int size);
 }
 using namespace vf;
 
-struct Violation { std::string prop, msg; };
-#define VF_FAIL(prop, ...) throw Violation{prop, sfmt(__VA_ARGS__)}
+struct Violation { std::string prop, msg, sig; };
+#define VF_FAIL(prop, ...) throw Violation{prop, sfmt(__VA_ARGS__), ""}
+static std::set<std::string> g_known;
 
 static std::string g_out_dir, g_current_text;
 static int g_worker = 0;
@@ -490,6 +491,45 @@ class CrashRunner {
       VF_FAIL("C05", "%s: ldb_open fails with rc=%d", what.c_str(), rc);
     }
     Recovered r = read_back(db, what);
+    // C13: once the reopen has completed (no iterators exist) the directory holds only live files
+    {
+      sched_quiesce();
+      char *val = nullptr;
+      Layout L;
+      std::string perr;
+      if (!ldb_property(db, "leveldb.sstables", &val) || !val) { sched_call_begin(); ldb_close(db); sched_call_end(); sched_end(); VF_FAIL("C14", "%s: property leveldb.sstables unavailable", what.c_str()); }
+      std::string text = val;
+      ldb_free(val);
+      if (!parse_layout(text, L, &perr)) { sched_call_begin(); ldb_close(db); sched_call_end(); sched_end(); VF_FAIL("C14", "%s: cannot parse layout: %s", what.c_str(), perr.c_str()); }
+      int nlogs = 0, nman = 0;
+      std::string leak;
+      for (auto &n : list_dir(img)) {
+        uint64_t num; std::string kind;
+        if (n == "CURRENT" || n == "LOCK" || n == "LOG" || n == "LOG.old") continue;
+        if (!parse_db_filename(n, &num, &kind)) continue;
+        if (kind == "table" && !L.has(num)) leak = n;
+        else if (kind == "temp") leak = n;
+        else if (kind == "log") nlogs++;
+        else if (kind == "manifest") nman++;
+      }
+      if (leak.empty() && nlogs != 1) leak = sfmt("%d log files", nlogs);
+      if (leak.empty() && nman != 1) {
+        // known finding: a MANIFEST numbered above the live one is kept deliberately (keep rule `number >= manifest_file_number`)
+        std::string cur;
+        read_file(img + "/CURRENT", cur);
+        uint64_t live_no = cur.size() > 9 ? strtoull(cur.c_str() + 9, nullptr, 10) : 0;
+        bool all_newer = true;
+        for (auto &n : list_dir(img)) {
+          uint64_t num; std::string kind;
+          if (parse_db_filename(n, &num, &kind) && kind == "manifest" && num < live_no) all_newer = false;
+        }
+        if (all_newer && g_known.count("orphan-newer-manifest-kept")) rep->count("known.orphan-newer-manifest-kept");
+        else if (all_newer) { sched_call_begin(); ldb_close(db); sched_call_end(); sched_end(); throw Violation{"C13", sfmt("%s: after recovery completed an orphan MANIFEST numbered above the live one is still in the directory", what.c_str()), "orphan-newer-manifest-kept"}; }
+        else leak = sfmt("%d MANIFEST files", nman);
+      }
+      if (!leak.empty()) { sched_call_begin(); ldb_close(db); sched_call_end(); sched_end(); VF_FAIL("C13", "%s: after recovery completed the directory still holds %s, which is not live", what.c_str(), leak.c_str()); }
+      if (ic.orphan || ic.current_switch) rep->fp("C13.nt", fnv1a(sfmt("%016llx/%zu/%016llx", (unsigned long long)case_hash, t, (unsigned long long)im.hash)));
+    }
     for (int i : required)
       if (!r.T.count(i)) {
         const WriteRec &w = writes[i];
@@ -622,6 +662,7 @@ class CrashRunner {
   }
 
   // ------------------------------------------------------------- main entry
+  std::string last_sig;
   bool run(const Case &c, std::string *prop, std::string *msg) {
     case_hash = fnv1a(c.str());
     bool ok = true;
@@ -699,6 +740,7 @@ class CrashRunner {
       ok = false;
       *prop = v.prop;
       *msg = v.msg;
+      last_sig = v.sig;
       if (sched_active()) sched_end();
     }
     cleanup();
@@ -745,7 +787,7 @@ int main(int argc, char **argv) {
     else if (a == "--out") out = next();
     else if (a == "--budget") budget = atof(next().c_str());
     else if (a == "--maxsize") maxsize = atoi(next().c_str());
-    else if (a == "--known") next();
+    else if (a == "--known") { std::string k = next(); size_t p = 0; while (p <= k.size()) { size_t q = k.find(',', p); if (q == std::string::npos) q = k.size(); if (q > p) g_known.insert(k.substr(p, q - p)); p = q + 1; } }
     else if (a == "-v") verbose = true;
   }
   signal(SIGPIPE, SIG_IGN);
@@ -765,7 +807,7 @@ int main(int argc, char **argv) {
     CrashRunner r(&rep, P);
     r.verbose = verbose;
     std::string prop, msg;
-    if (!r.run(c, &prop, &msg)) { printf("FAIL property=%s msg=%s\n", prop.c_str(), msg.c_str()); rc = 3; }
+    if (!r.run(c, &prop, &msg)) { printf("FAIL property=%s%s msg=%s\n", prop.c_str(), r.last_sig.empty() ? "" : (" sig=" + r.last_sig).c_str(), msg.c_str()); rc = 3; }
     else printf("PASS images=%ld\n", r.images_done);
     scratch_cleanup();
     return rc;
@@ -787,7 +829,7 @@ int main(int argc, char **argv) {
     if (!ok) {
       std::string fn = out.empty() ? std::string("failing.case") : out + sfmt("/w%d.failing.case", g_worker);
       write_file(fn, text);
-      printf("FAIL property=%s case=%s msg=%s\n", prop.c_str(), fn.c_str(), msg.c_str());
+      printf("FAIL property=%s case=%s%s msg=%s\n", prop.c_str(), fn.c_str(), r.last_sig.empty() ? "" : (" sig=" + r.last_sig).c_str(), msg.c_str());
       rc = 3;
       break;
     }
